@@ -44,9 +44,15 @@ pub(crate) fn emit(event: String) {
     if !recorded {
         if let Some(dir) = trace_dir() {
             use std::io::Write;
-            let name = format!("{}/{:?}.ndjson", dir, std::thread::current().id()).replace(['(', ')'], "_");
+            let name = format!(
+                "{}/{}-{:?}.ndjson",
+                dir,
+                std::process::id(),
+                std::thread::current().id()
+            )
+            .replace(['(', ')'], "_");
             if let Ok(mut f) = std::fs::OpenOptions::new().create(true).append(true).open(name) {
-                let _ = writeln!(f, "{}", event);
+                let _ = f.write_all(format!("{}\n", event).as_bytes());
             }
         }
     }
